@@ -87,12 +87,15 @@ def main(tier='quick', seed=0):
         records.extend(r.get('records', []))
         if r.get('error'):
             errors.append(f"{r['error']} (job {r['job']})")
-    assumptions = list(cxx.CXX_ASSUMPTIONS) + [
-        'parsing.pyx side (scaffold copies label/symbol/head flag of the k-th grammar result; retrieve_tree reads cache[(child categories)][rule_id]): covered by the bounded run on the DePyx text, not deductively',
+    from props import pyx
+    precs, perrs = pyx.records_for(PROP)          # parsing.pyx: scaffold copies the k-th result, the callbacks number the results by position, retrieve_tree reads cache[(children)][rule_id]
+    records.extend(precs)
+    errors.extend(perrs)
+    assumptions = list(cxx.CXX_ASSUMPTIONS) + pyx.ASSUMPTIONS + [
         'reader half: guess_combinator_by_triplet proved by the find-first loop rule for an arbitrary rule function; the call sites are decided on the ast (argument data flow and arity against Tree.make_binary)',
     ]
     extra = dict(functions_under_contract=['depccg/parsing.h::parse_sentence (push sites: rule index and head propagation)', 'depccg/grammar/__init__.py::guess_combinator_by_triplet',
-                                           'call sites: tools/reader.py (_AutoLineReader.parse_tree, read_xml, read_jigg_xml, _parse_ptb), tree.py (Tree.of_nltk_tree)'],
+                                           'call sites: tools/reader.py (_AutoLineReader.parse_tree, read_xml, read_jigg_xml, _parse_ptb), tree.py (Tree.of_nltk_tree)'] + pyx.FUNCTIONS_UNDER_CONTRACT[PROP],
                  cxx=info)
     from props import c14
     # the guess depends on its arguments alone: no module-level state in depccg/grammar/__init__.py (ast frame scan)
